@@ -91,3 +91,16 @@ impl Elem for P64 { const HAS_DROP: bool = false; fn mk(v: i64) -> Self { P64(v 
 #[repr(C)]
 pub struct P24(pub u8, pub u64, pub u16);
 impl Elem for P24 { const HAS_DROP: bool = false; fn mk(v: i64) -> Self { P24(v as u8, v as u64, (v >> 3) as u16) } fn val(&self) -> i64 { self.1 as i64 } }
+
+/// 64 bytes, align 64, with a destructor: allocations of it need the over-aligned layout, and an Arc of it keeps its counts 64 bytes before the payload
+#[repr(align(64))]
+pub struct A64(pub i64);
+impl Elem for A64 { fn mk(v: i64) -> Self { A64(v) } fn val(&self) -> i64 { self.0 } }
+impl Drop for A64 { fn drop(&mut self) { log_drop(self.0) } }
+impl Clone for A64 { fn clone(&self) -> Self { A64(self.0) } }
+
+/// heap-owning AND over-aligned (payload of the CArc harness, second instantiation)
+#[repr(align(64))]
+pub struct TokA64(pub Box<i64>);
+impl Elem for TokA64 { fn mk(v: i64) -> Self { TokA64(Box::new(v)) } fn val(&self) -> i64 { *self.0 } }
+impl Drop for TokA64 { fn drop(&mut self) { log_drop(*self.0) } }
